@@ -64,7 +64,7 @@ func genStep(t *rapid.T) Step {
 		s.Arg = rapid.IntRange(1, 6000).Draw(t, "arg")
 		if rapid.IntRange(0, 3).Draw(t, "swap") == 0 {
 			s.Op, s.Rel = "SwapParked", rapid.SampledFrom([]string{"parked", "parked", "last"}).Draw(t, "swaprel")
-		} else if rapid.IntRange(0, 3).Draw(t, "moveyielded") == 0 {
+		} else if rapid.IntRange(0, 1).Draw(t, "moveyielded") == 0 {
 			s.Op, s.Rel = "MoveYielded", rapid.SampledFrom([]string{"beyond", "far", "gap", "before"}).Draw(t, "moverel")
 		}
 	case 14, 15, 16:
@@ -544,6 +544,14 @@ func (e *exec[K]) mutate(st Step) error {
 		if s == nil || !s.hasLast || e.kk.Set == nil {
 			return nil
 		}
+		// (Only while this is the one live iterator: another iterator may be parked on this very key object - it
+		// remembers, by reference, the key it will yield next - and rewriting that object under it is the caller's
+		// mistake, not the library's.)
+		for _, o := range e.its {
+			if o != nil && o != s && !o.done {
+				return nil
+			}
+		}
 		if i, present := e.m.Find(s.last); !present || e.m.Es[i].Reps[0] != s.last || e.kk.Un(s.lastK) != s.last {
 			return nil // (gone already, or stored under another representative of its class)
 		}
@@ -723,6 +731,42 @@ func run[K any](kk tk.KeyKind[K], p Plan) (vk.Outcome, error) {
 		}
 		if err := e.next(s); err != nil {
 			return e.out, err
+		}
+	}
+	// Epilogue for key types with reference semantics (every other plan): everything above is finished, so one
+	// fresh iterator is the only live one; it hands out a few keys, the last of them is moved (the key object
+	// taken out, rewritten, put back) and the iteration is completed.
+	if e.kk.Set != nil && len(p.Steps)%2 == 0 && e.m.Len() >= 3 {
+		rev := len(p.Steps)%4 == 0
+		e.cur = Step{Op: "Open", It: 0, Plain: !rev, Reverse: rev, Lo: tk.BoundPlan{Kind: "unb"}, Hi: tk.BoundPlan{Kind: "unb"}}
+		e.its = [4]*itState[K]{}
+		e.open(e.cur)
+		s := e.its[0]
+		for j := 0; j < 1+len(p.Steps)%3 && !s.done; j++ {
+			if err := e.next(s); err != nil {
+				return e.out, err
+			}
+		}
+		for r, rel := range []string{"beyond", "far", "before"} {
+			if s.done {
+				break
+			}
+			e.cur = Step{Op: "MoveYielded", It: 0, Rel: rel, Arg: 1 + len(p.Steps) + 37*r}
+			if err := e.mutate(e.cur); err != nil {
+				return e.out, err
+			}
+			if err := e.next(s); err != nil {
+				return e.out, err
+			}
+		}
+		e.cur = Step{Op: "FinalDrain", It: 0}
+		for n := 0; !s.done; n++ {
+			if n > e.m.Len()+2 {
+				return e.out, e.viol("spin", "iterator yields more items than the collection holds")
+			}
+			if err := e.next(s); err != nil {
+				return e.out, err
+			}
 		}
 	}
 	e.out.NonTrivial = e.nontrivial
